@@ -1,0 +1,21 @@
+//go:build verif
+// +build verif
+
+package hc
+
+// Contracts for the deductive verifier in /verif (govc). Comment-only file.
+
+// ---- C15: hysteresis of the health flag ------------------------------------------------------------------
+
+//@ func (*Monitor).checkHost
+//@   prop C15
+//@   requires m != nil && host != nil
+//@   modifies nothing
+
+//@ func (*Monitor).checkHostAndUpdateStatus
+//@   prop C15
+//@   requires m != nil && host != nil && host.Stats != nil && m.config != nil && m.hostSet != nil && setok(m.hostSet) && cachefresh(m.hostSet)
+//@   modifies all
+//@   callpre MarkHostHealthy @healthy-only-after-at-least-the-rise-threshold-of-consecutive-successes arg1 == host && atomu64[host.Stats.successfulCount] >= uint64(m.config.RiseThreshold) && atomu64[host.Stats.failedCount] == 0
+//@   callpre MarkHostUnhealthy @unhealthy-only-after-at-least-the-fall-threshold-of-consecutive-failures arg1 == host && atomu64[host.Stats.failedCount] >= uint64(m.config.FallThreshold) && atomu64[host.Stats.successfulCount] == 0
+//@   ensures @every-result-is-counted-and-restarts-the-opposite-run (atomu64[host.Stats.successfulCount] == uint64(old(atomu64[host.Stats.successfulCount]) + 1) && atomu64[host.Stats.failedCount] == 0) || (atomu64[host.Stats.failedCount] == uint64(old(atomu64[host.Stats.failedCount]) + 1) && atomu64[host.Stats.successfulCount] == 0) || (atomu64[host.Stats.successfulCount] == 0 && atomu64[host.Stats.failedCount] == 0)
